@@ -825,6 +825,10 @@ impl HybSim {
     }
 
     pub fn finish(mut self) -> HTrace {
+        // let everything that is still in flight finish (io released), so that unresolved lookups are real hangs
+        self.disk.set_hold(false);
+        let _ = self.drain();
+        let _ = self.collect();
         // wind down: drop handles and the cache, drain, drop the runtime
         self.handles.clear();
         self.cache = None;
